@@ -10,6 +10,9 @@ C13 / C04 — the Markdown renderer's block quote and the parser's quote extract
   with a further blank line, `extract_block_quote` returns exactly the lines the renderer was given (minus the trailing
   empty quote lines it dropped), the quote is ended by the `blank_line` rule on the renderer's blank line, and
   `parse_block_quote` parses exactly that text as the children.
+* `NotSpoiler` / `parseMethod_quote`: the plugin `spoiler` rebinds the handler of `block_quote`; under `NotSpoiler` (plugin not
+  installed, or nested quote, or the text does not match `_BLOCK_SPOILER_MATCH`; `notSpoiler_of_first`: decided by the first
+  character) `parse_method` computes `parse_block_quote`.
 * `md_block_quote_step`: one iteration of `BlockParser.parse` consumes exactly what the renderer wrote (`quoteRules_ok`: no
   rule tried before `block_quote` can start with `>`).
 * `md_block_quote_extract_eos` / `md_block_quote_step_eos` / `md_quote_only_parse` / `md_block_quote_nested`: the quote that
@@ -499,6 +502,88 @@ theorem md_block_quote_roundtrip (c : RuleCfg) (hc : c ∈ allCfgs) (pmFuel : Na
     rw [this, hst1, hE]
     simp [truthyPos, listInsert, BlockState.appendToken]
 
+/-! ### the handler bound to `block_quote` (the plugin `spoiler` rebinds it) -/
+
+/-- the handler bound to the rule `block_quote` treats the extracted `text` as an ordinary quote: either the plugin
+`spoiler` is not installed (`parse_block_quote` is bound), or `parse_block_spoiler` is bound and does not see a spoiler
+(the quote is nested, or `_BLOCK_SPOILER_MATCH` — every line starts with (0–3 blanks) `!` — does not match `text`).
+Decidable on instances. -/
+def NotSpoiler (cfg : MdCfg) (depth : Nat) (text : Str) : Prop :=
+  spoilerActive cfg = false ∨
+    (depth == 0 && (Py.matchAt (cfg.rx "mistune.plugins.spoiler._BLOCK_SPOILER_MATCH") (Py.ctxOf text) 0).isSome) = false
+
+instance (cfg : MdCfg) (depth : Nat) (text : Str) : Decidable (NotSpoiler cfg depth text) := by
+  unfold NotSpoiler; infer_instance
+
+theorem endsWith_nl (X : Str) : Py.endsWith (X ++ ['\n']) ['\n'] = true := by
+  simp [Py.endsWith, Py.startsWith]
+
+/-- `parse_block_spoiler` on a quote that is not a spoiler is `parse_block_quote` -/
+theorem parseBlockSpoiler_eq_quote (cfg : MdCfg) (pm : ParseMethod) (mt : RxMatch) (st : BlockState) (X : Str)
+    (endPos : Option Nat) (st1 : BlockState)
+    (hext : extractBlockQuote cfg pm mt st = .ok (X ++ ['\n'], endPos, st1))
+    (hno : (st1.depth == 0 &&
+      (Py.matchAt (cfg.rx "mistune.plugins.spoiler._BLOCK_SPOILER_MATCH") (Py.ctxOf (X ++ ['\n'])) 0).isSome) = false) :
+    parseBlockSpoiler cfg pm mt st = parseBlockQuote cfg pm mt st := by
+  unfold parseBlockSpoiler parseBlockQuote
+  have hok : ∀ {α : Type} (a : α), (Except.ok a : Except PyErr α) = pure a := fun _ => rfl
+  simp only [hext, hok, pure_bind, endsWith_nl, if_true, hno, Bool.false_eq_true, if_false]
+
+/-- **the dispatch on `block_quote`**: under `NotSpoiler` (for the text the extraction returns, at the depth of the
+state it returns) `parse_method` runs `parse_block_quote` -/
+theorem parseMethod_quote (cfg : MdCfg) (f : Nat) (mt : RxMatch) (st : BlockState) (X : Str)
+    (endPos : Option Nat) (st1 : BlockState)
+    (hext : extractBlockQuote cfg (parseMethod cfg f) mt st = .ok (X ++ ['\n'], endPos, st1))
+    (hsp : NotSpoiler cfg st1.depth (X ++ ['\n'])) :
+    parseMethod cfg (f + 1) "block_quote" mt st = parseBlockQuote cfg (parseMethod cfg f) mt st := by
+  show (if spoilerActive cfg then parseBlockSpoiler cfg (parseMethod cfg f) mt st
+    else parseBlockQuote cfg (parseMethod cfg f) mt st) = _
+  rcases hsp with h | h
+  · rw [h]; rfl
+  · split
+    · exact parseBlockSpoiler_eq_quote cfg _ mt st X endPos st1 hext h
+    · rfl
+
+/-- a nested quote is never a spoiler -/
+theorem notSpoiler_nested (cfg : MdCfg) (d : Nat) (text : Str) : NotSpoiler cfg (d + 1) text := by
+  right; simp
+
+/-- **`NotSpoiler` from the first character**: if `_BLOCK_SPOILER_MATCH` cannot start with the first character of the
+text (a decidable fact about the regenerated regex and the character: every character except blank and `!`) -/
+theorem notSpoiler_of_first (cfg : MdCfg) (depth : Nat) (a : Char) (more : Str)
+    (hmin : 1 ≤ (cfg.rx "mistune.plugins.spoiler._BLOCK_SPOILER_MATCH").minLen)
+    (hf : (cfg.rx "mistune.plugins.spoiler._BLOCK_SPOILER_MATCH").firstOk pyCats a.toNat = false) :
+    NotSpoiler cfg depth (a :: more) := by
+  right
+  have : Py.matchAt (cfg.rx "mistune.plugins.spoiler._BLOCK_SPOILER_MATCH") (Py.ctxOf (a :: more)) 0 = none := by
+    unfold Py.matchAt
+    rw [Nat.zero_min]
+    exact firstOk_none _ (a :: more) 0 a rfl hmin hf
+  rw [this]; simp
+
+/-- **Obligation:** the regenerated `_BLOCK_SPOILER_MATCH` cannot match the empty string and cannot start with `>`. -/
+theorem spoilerMatch_gt_ok :
+    (match namedRx.lookup "mistune.plugins.spoiler._BLOCK_SPOILER_MATCH" with
+      | some r => decide (1 ≤ r.minLen) && !r.firstOk pyCats '>'.toNat
+      | none => false) = true := by decide +kernel
+
+/-- a quote whose first content line is itself a quote line is not a spoiler, in every regenerated configuration -/
+theorem notSpoiler_gt (c : RuleCfg) (depth : Nat) (more : Str) : NotSpoiler (ofRuleCfg c) depth ('>' :: more) := by
+  have h := spoilerMatch_gt_ok
+  split at h
+  · rename_i r hr
+    simp only [Bool.and_eq_true, decide_eq_true_eq, Bool.not_eq_true'] at h
+    have hrx : (ofRuleCfg c).rx "mistune.plugins.spoiler._BLOCK_SPOILER_MATCH" = r := by
+      show ((namedRx.lookup _).getD .fail) = r
+      rw [hr]; rfl
+    exact notSpoiler_of_first (ofRuleCfg c) depth '>' more (by rw [hrx]; exact h.1) (by rw [hrx]; exact h.2)
+  · cases h
+
+/-- **which regenerated configurations bind `parse_block_quote` itself**: all but the nine with the plugin `spoiler` -/
+theorem spoilerActive_cfgs : ∀ c ∈ allCfgs, spoilerActive (ofRuleCfg c) =
+    decide (c.name ∈ ["all", "all-speedup", "all-fenced", "all-rst", "all-tochook", "all-fenced-colon", "ast-all",
+      "only-spoiler", "all-noescape-hardwrap"]) := by decide +kernel
+
 /-! ### one iteration of `BlockParser.parse` on a rendered quote -/
 
 /-- the rules tried before `block_quote` cannot start with `>` (and `block_quote` is the expected regex) -/
@@ -558,7 +643,7 @@ theorem md_block_quote_step (c : RuleCfg) (hc : c ∈ allCfgs) (rules : List (St
     (hsc : compileSc (ofRuleCfg c) ["blank_line", "indent_code", "fenced_code"] = .ok sc)
     (hreq : (scMatch (Py.ctxOf (l0 ++ ['\n'])) sc 0).isSome = false)
     (hbl : (!ls.isEmpty && blankEnd (ofRuleCfg c) (linesNl ls)) = false)
-    (hrest : BlankStop rest) (child : BlockState)
+    (hrest : BlankStop rest) (hsp : NotSpoiler (ofRuleCfg c) st.depth (linesNl (l0 :: ls))) (child : BlockState)
     (hchild : parse (ofRuleCfg c) (parseMethod (ofRuleCfg c) (pmFuel + 1))
       ((({ st with cursor := before.length + (mdBlockQuote (linesNl (l0 :: ls ++ bs))).length - 1 } :
           BlockState).appendToken (tok "blank_line" [])).childState (linesNl (l0 :: ls)))
@@ -569,9 +654,11 @@ theorem md_block_quote_step (c : RuleCfg) (hc : c ∈ allCfgs) (rules : List (St
         { st with env := child.env,
                   tokens := st.tokens ++ [tok "block_quote" [("children", .arr child.tokens)], tok "blank_line" []],
                   cursor := before.length + (mdBlockQuote (linesNl (l0 :: ls ++ bs))).length } := by
-  obtain ⟨hout, hfire, _, hparse⟩ := md_block_quote_roundtrip c hc pmFuel st before rest l0 ls bs sc hx hmax hbol hnb
+  obtain ⟨hout, hfire, hext, hparse⟩ := md_block_quote_roundtrip c hc pmFuel st before rest l0 ls bs sc hx hmax hbol hnb
     hl0 hls hlast hbs hsc hreq hbl hrest
   have hparse := hparse child hchild
+  obtain ⟨X, hX⟩ := linesNl_concat (l0 :: ls) (by simp)
+  rw [hX] at hext hsp
   obtain ⟨bf, after, rfl, hb⟩ := quoteOk_split rules hrules
   have hlen : (mdBlockQuote (linesNl (l0 :: ls ++ bs))).length = (quoteLines (l0 :: ls)).length + 1 := by
     rw [hout]; simp
@@ -600,7 +687,7 @@ theorem md_block_quote_step (c : RuleCfg) (hc : c ∈ allCfgs) (rules : List (St
       simp only [scanAt, hm])
     (by rw [hcur]; rfl)
     (by
-      show parseBlockQuote (ofRuleCfg c) (parseMethod (ofRuleCfg c) (pmFuel + 1)) _ st = _
+      rw [parseMethod_quote (ofRuleCfg c) (pmFuel + 1) _ st X _ _ hext hsp]
       rw [hparse, hlen]
       rfl)
   rw [hstep, hlen]
@@ -686,7 +773,7 @@ theorem md_block_quote_step_eos (c : RuleCfg) (hc : c ∈ allCfgs) (rules : List
     (hl0 : PlainLine l0) (hls : ∀ l ∈ ls, PlainLine l)
     (hsc : compileSc (ofRuleCfg c) ["blank_line", "indent_code", "fenced_code"] = .ok sc)
     (hreq : (scMatch (Py.ctxOf (l0 ++ ['\n'])) sc 0).isSome = false)
-    (child : BlockState)
+    (hsp : NotSpoiler (ofRuleCfg c) st.depth (linesNl (l0 :: ls))) (child : BlockState)
     (hchild : parse (ofRuleCfg c) (parseMethod (ofRuleCfg c) pmFuel)
       (({ st with cursor := before.length + (quoteLines (l0 :: ls)).length } : BlockState).childState (linesNl (l0 :: ls)))
       (some (if st.depth + 1 ≥ (ofRuleCfg c).maxNested then withoutContainers (ofRuleCfg c).quoteRules
@@ -699,6 +786,9 @@ theorem md_block_quote_step_eos (c : RuleCfg) (hc : c ∈ allCfgs) (rules : List
   obtain ⟨breakSc, hbsc⟩ := quoteBreakSc_of c hc
   have hext := md_block_quote_extract_eos (ofRuleCfg c) rfl rfl (parseMethod (ofRuleCfg c) pmFuel) st before l0 ls sc _
     hx hmax hl0 hls hsc hreq hbsc
+  obtain ⟨X, hX⟩ := linesNl_concat (l0 :: ls) (by simp)
+  have hext' := hext
+  rw [hX] at hext' hsp
   have hparse := parseBlockQuote_of (ofRuleCfg c) (parseMethod (ofRuleCfg c) pmFuel) _ st _ _ _ child hext hchild
   obtain ⟨bf, after, rfl, hb⟩ := quoteOk_split rules hrules
   have hsub : before ++ quoteLines (l0 :: ls) = before ++ '>' :: (' ' :: l0) ++ ('\n' :: quoteLines ls) := by
@@ -725,7 +815,7 @@ theorem md_block_quote_step_eos (c : RuleCfg) (hc : c ∈ allCfgs) (rules : List
       simp only [scanAt, hm])
     (by rw [hcur]; rfl)
     (by
-      show parseBlockQuote (ofRuleCfg c) (parseMethod (ofRuleCfg c) pmFuel) _ st = _
+      rw [parseMethod_quote (ofRuleCfg c) pmFuel _ st X _ _ hext' hsp]
       rw [hparse]
       simp only [truthyPos, Bool.false_eq_true, if_false]
       rw [show before.length + (quoteLines (l0 :: ls)).length - 1 + 1 = before.length + (quoteLines (l0 :: ls)).length by
@@ -756,7 +846,7 @@ theorem md_quote_only_parse (c : RuleCfg) (hc : c ∈ allCfgs) (pmFuel : Nat) (c
     (hcur : cs.cursor = 0) (hl0 : PlainLine l0) (hls : ∀ l ∈ ls, PlainLine l)
     (hsc : compileSc (ofRuleCfg c) ["blank_line", "indent_code", "fenced_code"] = .ok sc)
     (hreq : (scMatch (Py.ctxOf (l0 ++ ['\n'])) sc 0).isSome = false)
-    (child : BlockState)
+    (hsp : NotSpoiler (ofRuleCfg c) cs.depth (linesNl (l0 :: ls))) (child : BlockState)
     (hchild : parse (ofRuleCfg c) (parseMethod (ofRuleCfg c) pmFuel)
       (({ cs with cursor := (quoteLines (l0 :: ls)).length } : BlockState).childState (linesNl (l0 :: ls)))
       (some (if cs.depth + 1 ≥ (ofRuleCfg c).maxNested then withoutContainers (ofRuleCfg c).quoteRules
@@ -767,7 +857,7 @@ theorem md_quote_only_parse (c : RuleCfg) (hc : c ∈ allCfgs) (pmFuel : Nat) (c
                     cursor := (quoteLines (l0 :: ls)).length } := by
   obtain ⟨scQ, hcomp, hq⟩ := quoteRulesSc_of c hc
   have hstep := md_block_quote_step_eos c hc scQ hq pmFuel cs.cursorMax cs [] l0 ls sc hx hmax hcur (Or.inl rfl) hl0 hls
-    hsc hreq child (by simpa using hchild)
+    hsc hreq hsp child (by simpa using hchild)
   unfold parse
   simp only [Option.getD_some, hcomp, bind, Except.bind]
   rw [hstep, parseLoop_done _ _ _ _ _ (by simp [hmax])]
@@ -840,7 +930,7 @@ theorem md_block_quote_nested (c : RuleCfg) (hc : c ∈ allCfgs) (rules : List (
         (mdBlockQuote (linesNl ((['>', ' '] ++ m0) :: ms.map (['>', ' '] ++ ·) ++ [[]]))).length - 1 } :
           BlockState).appendToken (tok "blank_line" [])).childState (quoteLines (m0 :: ms)))
     m0 ms sc rfl rfl rfl ⟨(hnb m0 (by simp)).no_nl, hm0⟩ (fun l hl => ⟨(hnb l (by simp [hl])).no_nl, hms l hl⟩) hsc hreq
-    child2 hchild2
+    (notSpoiler_nested (ofRuleCfg c) st.depth _) child2 hchild2
   have := md_block_quote_step c hc rules hrules pmFuel fuel st before rest (['>', ' '] ++ m0) (ms.map (['>', ' '] ++ ·))
     [[]] sc hx hmax hcur hbol
     (by
@@ -861,7 +951,7 @@ theorem md_block_quote_nested (c : RuleCfg) (hc : c ∈ allCfgs) (rules : List (
         List.getLast?_map, hz]
       rfl)
     (by intro b hb; simp only [List.mem_cons, List.not_mem_nil, or_false] at hb; subst hb; intro ch hch; cases hch)
-    hsc hsc' (by simpa using hbl) hrest _
+    hsc hsc' (by simpa using hbl) hrest (by rw [linesNl_cons]; exact notSpoiler_gt c _ _) _
     (by rw [if_neg hnot]; exact hinner)
   rw [this]
   rfl
@@ -962,6 +1052,54 @@ example (rules : List (String × Rx)) (hr : compileSc exCfg exCfg.blockRules = .
       quoteExSc rfl rfl rfl (Or.inl rfl) (by decide) (by decide) (by decide) ⟨"x".toList, rfl, by decide⟩ (by decide) rfl
       (by decide +kernel) rfl (Or.inr ⟨'n', "ext\n".toList, rfl, by decide, by decide⟩) (by decide) child2 hp
 
+/-! the handler bound to `block_quote` -/
+
+/-- core configuration: `parse_block_quote` itself is bound -/
+example : spoilerActive exCfg = false := by decide
+example : NotSpoiler exCfg 0 "! x\n".toList := Or.inl (by decide)
+/-- `only-spoiler`: `parse_block_spoiler` is bound; a quote without `!` is not a spoiler, `! x` is, a nested one is not -/
+example : spoilerActive (ofRuleCfg cfg_only_spoiler) = true := by decide
+example : NotSpoiler (ofRuleCfg cfg_only_spoiler) 0 "foo  bar\n\n> x\n".toList := by decide +kernel
+example : ¬ NotSpoiler (ofRuleCfg cfg_only_spoiler) 0 "! x\n".toList := by decide +kernel
+example : NotSpoiler (ofRuleCfg cfg_only_spoiler) 1 "! x\n".toList := notSpoiler_nested _ 0 _
+/-- from the first character (`f`) -/
+example : NotSpoiler (ofRuleCfg cfg_only_spoiler) 0 ('f' :: "oo\n".toList) :=
+  notSpoiler_of_first _ 0 'f' _ (by decide +kernel) (by decide +kernel)
+
+theorem cfg_only_spoiler_mem : cfg_only_spoiler ∈ allCfgs := by simp [allCfgs]
+
+/-- **non-vacuity of `md_block_quote_step` on a configuration WITH the plugin `spoiler`** (`only-spoiler`, root state,
+top-level rules): the document `# t⏎> foo  bar⏎> ⏎> > x⏎⏎next⏎` with the cursor at 4; the dispatch goes to
+`parse_block_spoiler`, which computes what `parse_block_quote` computes -/
+example (rules : List (String × Rx))
+    (hr : compileSc (ofRuleCfg cfg_only_spoiler) (ofRuleCfg cfg_only_spoiler).blockRules = .ok rules) (fuel : Nat)
+    (child : BlockState)
+    (hchild : parse (ofRuleCfg cfg_only_spoiler) (parseMethod (ofRuleCfg cfg_only_spoiler) 2)
+      ((({ ({ BlockState.root exQuoteDoc with cursor := 4 } : BlockState) with
+          cursor := "# t\n".toList.length +
+            (mdBlockQuote (linesNl ("foo  bar".toList :: ["".toList, "> x".toList] ++ [[], []]))).length - 1 } :
+          BlockState).appendToken (tok "blank_line" [])).childState
+        (linesNl ("foo  bar".toList :: ["".toList, "> x".toList])))
+      (some (ofRuleCfg cfg_only_spoiler).quoteRules) = .ok child) :
+    parseLoop (ofRuleCfg cfg_only_spoiler) (parseMethod (ofRuleCfg cfg_only_spoiler) 3) rules (fuel + 1)
+        ({ BlockState.root exQuoteDoc with cursor := 4 } : BlockState) =
+      parseLoop (ofRuleCfg cfg_only_spoiler) (parseMethod (ofRuleCfg cfg_only_spoiler) 3) rules fuel
+        { ({ BlockState.root exQuoteDoc with cursor := 4 } : BlockState) with
+          env := child.env,
+          tokens := [] ++ [tok "block_quote" [("children", .arr child.tokens)], tok "blank_line" []],
+          cursor := "# t\n".toList.length +
+            (mdBlockQuote (linesNl ("foo  bar".toList :: ["".toList, "> x".toList] ++ [[], []]))).length } :=
+  md_block_quote_step cfg_only_spoiler cfg_only_spoiler_mem rules
+    (by have := (quoteRules_ok cfg_only_spoiler cfg_only_spoiler_mem).1; rw [hr] at this; exact this)
+    1 fuel _ "# t\n".toList "next\n".toList "foo  bar".toList ["".toList, "> x".toList] [[], []] quoteExSc rfl rfl rfl
+    (by decide) (by decide) (by decide) (by decide) ⟨"> x".toList, rfl, by decide⟩ (by decide) rfl (by decide +kernel)
+    (by decide +kernel) (Or.inr ⟨'n', "ext\n".toList, rfl, by decide, by decide⟩) (by decide +kernel) child hchild
+
+/-- … and the child parse of that instance succeeds -/
+example : (parse (ofRuleCfg cfg_only_spoiler) (parseMethod (ofRuleCfg cfg_only_spoiler) 2)
+    ((({ BlockState.root exQuoteDoc with cursor := 24 } : BlockState).appendToken (tok "blank_line" [])).childState
+      "foo  bar\n\n> x\n".toList) (some (ofRuleCfg cfg_only_spoiler).quoteRules)).toBool = true := by decide +kernel
+
 end Examples
 
 /-! ### axioms of the headline theorems -/
@@ -981,5 +1119,11 @@ end Examples
 #print axioms md_block_quote_step_eos
 #print axioms md_quote_only_parse
 #print axioms md_block_quote_nested
+#print axioms parseBlockSpoiler_eq_quote
+#print axioms parseMethod_quote
+#print axioms notSpoiler_of_first
+#print axioms spoilerMatch_gt_ok
+#print axioms notSpoiler_gt
+#print axioms spoilerActive_cfgs
 
 end Mistune
